@@ -24,8 +24,15 @@ Statements over `Model/Log.lean`; no bound on the number of workers, emissions, 
 * `exactly_once` — … each record exactly as often as the worker put it;
 * `task_output_delivered` — the end-to-end form: at loop exit the caller's log holds, for every task, every
   logger message and every non-blank stdout / stderr write of its `run()`, once, in order.
+* `consumed_delivered`, `delivered_before_raise`, `delivered_before_return_any`, `no_duplicates_any_exit`,
+  `runLoop_continue` — the loop with task outcomes (`runLoop`): `wait` yields after its second drain and, with
+  `continue_on_failure=False`, the coordinator raises `LabError` at the first failed outcome, abandoning the
+  generator.  Whichever way the loop ends, every worker whose result `executor.wait` has taken — in particular
+  the failing one and everything collected in the same polling round — has had all its records delivered
+  exactly once, in order; with `continue_on_failure=True` `runLoop` is `loop`.
 An `example` shows that the drain *after* `executor.wait` is what `delivered_before_return` rests on: the
-same loop without it loses the records of the task that finishes last.
+same loop without it loses the records of the task that finishes last; another that the drain must come
+*before the first yield*: with the drain at the tail of the generator a raise loses the failing task's records.
 -/
 namespace Lt.Props.C19
 open Lt.Log
@@ -95,6 +102,58 @@ theorem task_output_delivered (n : Nat) (ems : Nat → List Emit) (sched : List 
   rw [delivered_before_return n _ sched hexit w hw]
   exact worker_exactly_once (ems w)
 
+/-! ## every way `run_tasks` can hand control back
+
+`runLoop` adds the outcomes: `wait` yields after its second drain, and with `continue_on_failure=False` the
+coordinator raises `LabError` at the first failed outcome it is handed, abandoning the generator. -/
+
+/-- at whatever point the coordinator loop stops or stands between two `wait`s — the schedule ran out, it
+returned, or it raised — every worker whose result `executor.wait` has taken has had all of its records
+delivered, in order: the drain after `executor.wait` comes before the first yield -/
+theorem consumed_delivered (cof : Bool) (fails : Nat → Bool) (n : Nat) (recs : Nat → List Rec)
+    (sched : List Round) (w : Nat)
+    (hw : w ∈ (runLoop cof fails (init n recs) sched).1.consumed) :
+    proj w (runLoop cof fails (init n recs) sched).1.delivered = recs w := by
+  obtain ⟨hinv, hq⟩ := inv_runLoop n recs cof fails sched _ (inv_init n recs) rfl
+  have ht := hinv.fin w (hinv.con w hw)
+  have := hinv.split w
+  rw [hq, ht] at this
+  simpa [proj] using this
+
+/-- exit by `LabError` (continue_on_failure=False): the error is for a failed worker whose outcome was taken
+in that round, and everything that worker and every other worker consumed so far — in particular all
+workers collected in the same polling round — put on the log queue has been delivered exactly once -/
+theorem delivered_before_raise (cof : Bool) (fails : Nat → Bool) (n : Nat) (recs : Nat → List Rec)
+    (sched : List Round) (f : Nat)
+    (hraise : (runLoop cof fails (init n recs) sched).2 = .raised f) :
+    cof = false ∧ fails f = true ∧
+    proj f (runLoop cof fails (init n recs) sched).1.delivered = recs f ∧
+    ∀ w ∈ (runLoop cof fails (init n recs) sched).1.consumed, ∀ r : Rec,
+      (runLoop cof fails (init n recs) sched).1.delivered.count (w, r) = (recs w).count r := by
+  obtain ⟨h1, h2, h3⟩ := runLoop_raised cof fails f sched _ hraise
+  refine ⟨h1, h2, consumed_delivered cof fails n recs sched f h3, ?_⟩
+  intro w hw r
+  rw [← count_proj, consumed_delivered cof fails n recs sched w hw]
+
+/-- exit by return, with failures anywhere and either `continue_on_failure` setting -/
+theorem delivered_before_return_any (cof : Bool) (fails : Nat → Bool) (n : Nat) (recs : Nat → List Rec)
+    (sched : List Round) (hret : (runLoop cof fails (init n recs) sched).2 = .returned) (w : Nat) (hw : w < n) :
+    proj w (runLoop cof fails (init n recs) sched).1.delivered = recs w := by
+  have hall := runLoop_returned cof fails sched _ hret
+  have hn := (inv_runLoop n recs cof fails sched _ (inv_init n recs) rfl).1.hn
+  exact consumed_delivered cof fails n recs sched w (mem_consumed_of_all _ hall w (by rw [hn]; exact hw))
+
+/-- never more than emitted, never out of order, whichever way the loop ends -/
+theorem no_duplicates_any_exit (cof : Bool) (fails : Nat → Bool) (n : Nat) (recs : Nat → List Rec)
+    (sched : List Round) (w : Nat) :
+    ∃ rest, proj w (runLoop cof fails (init n recs) sched).1.delivered ++ rest = recs w :=
+  ⟨_, by rw [← List.append_assoc]
+         exact (inv_runLoop n recs cof fails sched _ (inv_init n recs) rfl).1.split w⟩
+
+/-- `continue_on_failure=True` (the default): the loop with outcomes is the plain loop above -/
+theorem runLoop_continue (fails : Nat → Bool) (s : St) (sched : List Round) :
+    (runLoop true fails s sched).1 = loop s sched := runLoop_cof fails sched s
+
 /-! ## non-vacuity -/
 
 /-- `print("a")`, flush, a blank write, `print("b")`, final flush, a second flush -/
@@ -129,5 +188,30 @@ def loopNoSecondDrain : St → List Round → St
 example : allConsumed (loopNoSecondDrain (init 2 demoRecs) demoSched) = true
     ∧ proj 1 (loopNoSecondDrain (init 2 demoRecs) demoSched).delivered = [.logged "b"]
     ∧ demoRecs 1 = [.logged "b", .stdout ["p"]] := by decide
+
+/-- worker 1 fails; it and worker 0 finish inside the same `executor.wait`; `continue_on_failure=False`:
+the loop raises for worker 1 (hypothesis of `delivered_before_raise` is satisfiable) with both workers'
+records delivered -/
+def failSched : List Round := [{ a := [], b := [.finish 1, .finish 0], c := [] }]
+
+example : (runLoop false (fun w => w == 1) (init 2 demoRecs) failSched).2 = .raised 1 := by decide
+example : (runLoop false (fun w => w == 1) (init 2 demoRecs) failSched).1.delivered
+    = [(1, .logged "b"), (1, .stdout ["p"]), (0, .logged "a"), (0, .stdout ["p"])] := by decide
+example : (runLoop true (fun w => w == 1) (init 2 demoRecs) failSched).2 = .returned := by decide
+
+/-- the same `wait` with the second drain at the tail of the generator (after the yields): a raise at a
+yield abandons the generator before that drain — the state at the raise is the one without it … -/
+def runLoopTailDrain (fails : Nat → Bool) : St → List Round → St × Exit
+  | s, [] => (s, .running)
+  | s, r :: rs =>
+    if allConsumed s then (s, .returned)
+    else
+      match (yieldOrder s.n s.consumed (waitRoundNoSecondDrain s r).consumed).find? fails with
+      | some w => (waitRoundNoSecondDrain s r, .raised w)
+      | none => runLoopTailDrain fails (consumeLog (r.c.foldl envStep (waitRoundNoSecondDrain s r))) rs
+
+/-- … and the failing task's own records (and its round-mates') are lost -/
+example : (runLoopTailDrain (fun w => w == 1) (init 2 demoRecs) failSched).2 = .raised 1
+    ∧ (runLoopTailDrain (fun w => w == 1) (init 2 demoRecs) failSched).1.delivered = [] := by decide
 
 end Lt.Props.C19
